@@ -37,6 +37,7 @@ impl<const B: Word> Repr<B> {
 }
 impl<R: Round> Context<R> {
 //@@ FN float/convert/context_new.rs
+//@@ FN float/repr/is_limited.rs
 }
 impl<R: Round, const B: Word> FBig<R, B> {
 //@@ FN float/fbig/new.rs
